@@ -91,9 +91,7 @@ func TestVerifC01ZrpcClient(t *testing.T) {
 					func(ctx context.Context, method string, req, reply any, cc *grpc.ClientConn, opts ...grpc.CallOption) error {
 						onReq()
 						ran = true
-						if c.Panics {
-							panic(verifc01.PanicValue)
-						}
+						c.Unwind()
 						return want
 					})
 				return c01RetClass(err, want, ctx, ran)
